@@ -235,6 +235,23 @@ CHECKS["C08"] = dict(
     technique="Lean 4 per-event theorems + invariant over a seller-controller model + differential correspondence with the real controller/watcher/allocator over a fake Ethereum client and fake miners under synctest + trace monitor on miner destinations",
     design="5/C08", engine="contract")
 
+CHECKS["C09"] = dict(
+    text="Kernel-checked theorems over a model of the seller watcher's cycle accounting (onCycleEnd / adjustHashrate / replaceMiner / "
+         "the 10 s tick), with the allocator as a parameter: the books are exact for every history of cycles (cumulative shortfall = "
+         "rate x cycles - delivered), the next request asks for exactly what is owed beyond the full miners, with an allocator that can "
+         "arrange what is asked an undisturbed cycle delivers the rate and what one cycle lost is delivered on top in the next one (never "
+         "behind by more than that cycle's loss, never ahead), what a leaving miner owed is put back into the request and, if it could "
+         "not be arranged on the spot, stays requested and is retried by the tick. Partial: what the real allocator can arrange for a "
+         "given fleet is not proved but observed - the real factory / controller / watcher / Allocator / Schedulers run closed-loop over "
+         "fake miners in virtual time on many-small / few-large / mixed / busy fleets with miners leaving (by role: full, partial, free) "
+         "and joining; the work that really reached the destination is judged against rate x elapsed +- one cycle's worth, a leaving "
+         "miner must be replaced within 25 s when a free miner large enough is connected, and the watcher's own books (every delivery "
+         "log entry, the request after every disconnect, booked vs delivered work, the cycle clock) are compared with the model. The "
+         "fleet the allocator cannot serve (no miner large enough for a minimum job in a cycle, rate below the full-miner threshold) is a "
+         "theorem too and a known finding.",
+    technique="Lean 4 induction/refinement theorems over a cycle-accounting model with the allocator as parameter (counterexample theorem for the known finding) + regenerated source facts (thresholds, statement skeletons) + closed-loop differential correspondence with the real watcher/allocator/schedulers over fake miners under synctest + trace monitor on delivered work",
+    design="5/C09", engine="contract")
+
 NOT_YET = {}
 
 ALL = ["C%02d" % i for i in range(1, 21)]
@@ -282,7 +299,7 @@ def main():
     json.dump(m, open("/verif/MANIFEST.json", "w"), indent=1)
 
 
-HOOK_COMMITS = ["7817c1b"]
+HOOK_COMMITS = ["7817c1b", "0a4adbc"]
 
 if __name__ == "__main__":
     main()
